@@ -77,7 +77,7 @@ func (d *OTLPDecoder) Decode() error {
 	for _, res := range obj.ResourceSpans {
 		for _, scope := range res.ScopeSpans {
 			for _, span := range scope.Spans {
-				span.Attributes = append(span.Attributes, res.Resource.Attributes...)
+				span.Attributes = append(span.Attributes, res.GetResource().GetAttributes()...)
 				attrsMap := map[string]string{}
 				populateServiceNames(span)
 				d.initAttributesMap(span.Attributes, "", &attrsMap)
